@@ -109,7 +109,7 @@ def cached_objects():
 
 def run(ctx):
     pyr = random.Random(ctx.seed)
-    ctx.proof_layer(allowed_axioms=(), coq_deps=[])
+    ctx.proof_layer(allowed_axioms=(), coq_deps=[], gen=["gl_retrieve"])
     core.note_drift(ctx, ANCHORS)
     exp = json.load(open(os.path.join(core.VERIF, "vcheck", "expected_inventory.json")))
     cov = core.LineCoverage()
